@@ -2,7 +2,7 @@ SPECIFICATION Spec
 CONSTANTS
   Mode = "alias"
   MaxSent = 0
-  Samples = 0
+  Samples = 15000
   SampleLen = 0
   MaxDerive = 0
   Bug = "none"
